@@ -81,6 +81,7 @@ type Rec struct {
 	evals      int64
 	distinct   map[[8]byte]struct{}
 	samples    []interface{}
+	fallback   []interface{}
 	maxSamples int
 	buckets    map[string]*int64
 	extra      map[string]interface{}
@@ -133,6 +134,14 @@ func (r *Rec) Nontrivial(canon string) {
 	copy(k[:], h[:8])
 	r.mu.Lock()
 	r.distinct[k] = struct{}{}
+	if len(r.fallback) < 3 {
+		// kept as samples if the monitor records none explicitly
+		c := canon
+		if len(c) > 3000 {
+			c = c[:3000] + "..."
+		}
+		r.fallback = append(r.fallback, map[string]interface{}{"nontrivial_case_canonical_form": c})
+	}
 	r.mu.Unlock()
 }
 
@@ -239,11 +248,15 @@ func TrimStack(st string) string {
 func (r *Rec) Result(prop string) *Result {
 	r.mu.Lock()
 	defer r.mu.Unlock()
+	samples := r.samples
+	if len(samples) == 0 {
+		samples = r.fallback
+	}
 	res := &Result{
 		Prop:            prop,
 		Evaluations:     atomic.LoadInt64(&r.evals),
 		Rule:            r.Rule,
-		Samples:         r.samples,
+		Samples:         samples,
 		Buckets:         map[string]int64{},
 		Extra:           r.extra,
 		Violations:      r.viol,
